@@ -12,6 +12,7 @@ import (
 	"encoding/json"
 	"fmt"
 	"math/rand"
+	"strings"
 
 	"verif/internal/fw"
 	"verif/internal/wr"
@@ -82,7 +83,7 @@ func init() {
 		ID: "C09",
 		Rule: "inputs: generated HTML documents whose elements carry one of 20 display values (block, inline, inline-block, list-item, table, inline-table, the 8 table-internal values, flex, inline-flex, grid, inline-grid, flow-root, none) × float × position × ::before/::after with display and float × list-style-position × caption-side, plus (random trees only) multi-keyword display spellings and inline list-item, HTML tables (colgroup/col span, colspan/rowspan incl. rowspan=0), replaced elements with children (svg, object, img). " +
 			"Enumerated exhaustively: every (parent, child, grandchild) display triple with and without surrounding text, every (parent, child, child) sibling triple with no / white-space / text separator, every (parent, child) pair with the child floated or absolutely positioned, every (element, pseudo-element) display pair, every caption-side combination of two captions of a table; thorough adds every 4-chain over the 12 table-related values. The rest are random trees of at most 40 elements. " +
-			"A case is non-trivial when the observed box tree contains the principal box of at least one element other than html/body and at least one anonymous box or table/flex/grid fix-up was observable (the tree has more boxes than the document has rendered elements and text runs); distinct = distinct document text.",
+			"A case is non-trivial when at least one element other than html/body is rendered, every clause held, and the observed tree has more boxes than the document has rendered elements (text, line, anonymous or wrapper boxes were generated and walked); distinct = distinct input.",
 		N: func(tier string) int {
 			a, b, c, d, e, f := famSizes(tier)
 			return a + b + c + d + e + f
@@ -157,7 +158,7 @@ func check(raw json.RawMessage) fw.Result {
 			rendered++
 		case e.parent != nil && e.parent.replaced:
 			res.Count("replaced_children_verified", 1)
-		case e.why != "" && len(e.why) > 0 && e.why[0] == 0xc2: // "§…"
+		case strings.Contains(e.why, "17.2.1"):
 			res.Count("column_children_verified", 1)
 		default:
 			res.Count("hidden_elements_verified", 1)
